@@ -1161,6 +1161,12 @@ impl<'a> JitMemory<'a> {
         Ok(mem)
     }
 
+    /// Verification hook: the machine code emitted by the second pass (its length is the size pass 1 computed).
+    #[cfg(rbpf_verif)]
+    pub fn verif_code(&self) -> &[u8] {
+        &self.contents[..self.offset]
+    }
+
     pub fn get_prog(&self) -> MachineCode {
         unsafe { mem::transmute(self.contents.as_ptr()) }
     }
